@@ -20,7 +20,8 @@ PKGS = ["./cmd/instance"]
 
 DEV_PAR = {"AliasDefaults": {"race"}, "LazyUnsync": {"race", "history"}, "NoStepMutex": {"race", "initonce"},
            "SharedMarks": {"race", "history"}, "SharedInProgress": {"history"},
-           "SharedError": {"race", "history"}, "HideRestore": {"race", "history", "input"}}
+           "SharedError": {"race", "history"}, "HideRestore": {"race", "history", "input"},
+           "MemoRootUnsync": {"race"}}
 # kinds whose defects are steady-state (scratch state that must be per call): every goroutine repeats its calls
 STEADY = {"chain", "compat2", "disabled", "oneof"}
 NS = [2, 4, 8, 16]
@@ -52,7 +53,7 @@ def make_cases(ctx, scheds, thorough):
     rotating with the seed."""
     cases, seen = [], set()
     idx = ctx.seed
-    for kind, origin, progs, targeted, shared in scheds:
+    for kind, origin, progs, targeted, shared, tag in scheds:
         key = (kind, origin, shared, prog_key(progs))
         if key in seen:
             continue
@@ -74,11 +75,50 @@ def make_cases(ctx, scheds, thorough):
         for ck, n in plan:
             steady = kind in STEADY
             cases.append(dict(mode="race", kind=kind, ckind=ck, origin=origin, shared=shared, progs=progs, n=n, seed=ctx.seed,
-                              iters=((1000 if thorough else 150) if steady else 1),
-                              trials=(3 if glob else ((6 if thorough else 3) if steady else (40 if thorough else 25))),
-                              procs=((6 if thorough else 4) if glob else (2 if thorough else 1)),
-                              targeted=targeted))
+                              iters=((300 if thorough else 150) if steady else 1),
+                              trials=(3 if glob else ((4 if thorough else 3) if steady else (40 if thorough else 25))),
+                              procs=((6 if thorough else 4) if glob else (2 if thorough and not steady else 1)),
+                              targeted=targeted, stratum="%s/%s/%s/%s" % (kind, origin, "shared" if shared else "own", tag)))
     return cases
+
+
+PER_CALL = {"oneof": 0.0006, "disabled": 0.0005, "chain": 0.0003, "compat2": 0.0004}   # steady-state kinds, seconds
+
+
+def case_cost(c):
+    """rough CPU seconds of one race case under the race detector, calibrated on measured per-kind times (a
+    steady-state call 0.3-0.6 ms incl. snapshots and comparison, a first-use trial ~15 ms, a fresh process ~80 ms);
+    only relative sizes matter"""
+    calls = c["trials"] * c["n"] * c.get("iters", 1) * max(len(p) for p in c["progs"])
+    return c["procs"] * (0.08 + c["trials"] * 0.015 + calls * PER_CALL.get(c["kind"], 0.0001))
+
+
+def sample_cases(ctx, cases, budget, keep):
+    """Deterministic (VERIF_SEED) stratified sample: strata = (kind, origin, shared / own input, model schedule or
+    deviation-witness class).  Every stratum keeps its first `keep` cases (in the order of a seeded hash); the rest
+    of the budget (estimated CPU seconds) is handed out round-robin over the strata, one case at a time."""
+    strata = {}
+    for c in cases:
+        strata.setdefault(c.get("stratum", c["kind"]), []).append(c)
+    for k in strata:
+        strata[k].sort(key=lambda c: common.sha([c["ckind"], c["n"], [[x["op"], x["tok"]] for p in c["progs"] for x in p], ctx.seed]))
+    chosen, spent = [], 0.0
+    for k in sorted(strata):
+        for c in strata[k][:keep]:
+            chosen.append(c)
+            spent += case_cost(c)
+    level = keep
+    while spent < budget:
+        more = False
+        for k in sorted(strata):
+            if level < len(strata[k]) and spent < budget:
+                chosen.append(strata[k][level])
+                spent += case_cost(strata[k][level])
+                more = True
+        if not more:
+            break
+        level += 1
+    return chosen, spent, {k: len(v) for k, v in strata.items()}
 
 
 def run(ctx):
@@ -147,24 +187,36 @@ def run(ctx):
                     if pk in keys or len(keys) >= cap:
                         continue
                     keys.add(pk)
-                    scheds.append((w["kind"], w["origin"], p, True, bool(w.get("shared"))))
-    ntarget = len({(k, o, sh, prog_key(p)) for k, o, p, _, sh in scheds})
+                    scheds.append((w["kind"], w["origin"], p, True, bool(w.get("shared")), "%s:%s" % (dev, w["what"])))
+    ntarget = len({(k, o, sh, prog_key(p)) for k, o, p, _, sh, _t in scheds})
     for rec in recs:
         sched = rec["sched"]
         sched = list(sched.values()) if isinstance(sched, dict) else sched
         scheds.append((rec["kind"], rec["origin"], [[ic.call_of(e) for e in seq] for seq in sched], False,
-                       bool(rec.get("shared"))))
+                       bool(rec.get("shared")), "model"))
     cases = make_cases(ctx, scheds, thorough)
     # the package-level meta-schemas: describing and rebuilding concurrently (beyond the model: detector only)
     cases += [dict(mode="race", kind="meta", ckind="meta", origin="fresh", progs=[[dict(op="describe_rebuild", tok="-", m=None, exp=[])]],
                    n=n, trials=(40 if thorough else 8), procs=(4 if thorough else 2), seed=ctx.seed, targeted=False) for n in (2, 8, 16)]
+    # cap the race workload: a deterministic stratified sample keeps the tier within its budget
+    generated = len(cases)
+    budget = 7500.0 if thorough else 330.0      # estimated CPU seconds of the race driver
+    cases, spent, strata = sample_cases(ctx, cases, budget, keep=(10 if thorough else 4))
+    ctx.extra.update(cases_generated=generated, cases_run=len(cases), strata=len(strata),
+                     sampling_rule="strata = (kind, origin, shared/own input, model schedule | deviation:witness class); every "
+                                   "stratum keeps its first %d cases in the order of a hash seeded by VERIF_SEED, the rest of an "
+                                   "estimated budget of %d CPU-seconds is handed out round-robin over the strata" % (
+                                       10 if thorough else 4, budget),
+                     estimated_cost_s=round(spent))
+    ctx.log("race cases: %d generated in %d strata, %d run (estimated %.0f CPU-s)" % (generated, len(strata), len(cases), spent))
     # the driver hands contiguous shards to its worker processes: spread the long (steady-state) cases
     random.Random(ctx.seed).shuffle(cases)
     ctx.log("schedules: %d distinct (%d from deviation witnesses) -> %d cases" % (
-        len({(k, o, sh, prog_key(p)) for k, o, p, _, sh in scheds}), ntarget, len(cases)))
+        len({(k, o, sh, prog_key(p)) for k, o, p, _, sh, _t in scheds}), ntarget, len(cases)))
 
     ic.consume(ctx, [dict(mode="bind")], ic.run_driver(ctx, drv, [dict(mode="bind")], "bind", jobs=1, env={"GORACE": "atexit_sleep_ms=0"}), need_race=True)
-    results = ic.run_driver(ctx, drv, cases, "race", jobs=min(14, common.NCPU), timeout=3000, env={"GOMAXPROCS": "4", "GORACE": "atexit_sleep_ms=0"})
+    results = ic.run_driver_chunked(ctx, drv, cases, "race", case_cost, jobs=min(14, common.NCPU),
+                                    env={"GOMAXPROCS": "4", "GORACE": "atexit_sleep_ms=0"})
     trace = ic.consume(ctx, cases, results, need_race=True)
     ctx.traces += len(cases)
     trials = sum(x["res"].get("trials", 0) for x in results)
